@@ -134,6 +134,9 @@ def main(argv=None):
     ap.add_argument('--replay', default=None)
     a = ap.parse_args(argv)
     seed = int(os.environ.get('VERIF_SEED', '0') or 0)
+    if a.tier == 'thorough':
+        # every property obligation decided by z3 is re-decided by cvc5 (int-blasting); disagreement = INCONCLUSIVE
+        os.environ['VERIF_CROSS_CHECK'] = '1'
     out = Outcome(a.pid, a.tier, seed)
     reg = registry()
     if a.pid not in reg:
